@@ -2,11 +2,12 @@ package main
 
 import (
 	"golang.org/x/tools/go/ssa"
+	"strings"
 )
 
 func init() {
 	register("C04", []string{"."}, runC04)
-	propExplain["C04"] = "Decides the pinning clause of C04: every read-state / version reference taken in package pebble (loadReadState, readState.ref, Version.Ref) is, on every path to every return, released or handed to an owner (iterator, snapshot, compaction) — a missing pin lets compactions delete files under a live iterator, a missing release is the leak of C39/C47; an iterator's sequence number and pinned view are written only at construction/clone/close; the view is pinned before the visible sequence number is read. (K2) every mutator of an indexed batch that inserts into its range-deletion / range-key index (directly or through the deferred operation) has cleared the batch's cached fragments of that kind on the same path, so that iterators created or refreshed afterwards rebuild them. Does not decide batch-view refresh semantics."
+	propExplain["C04"] = "Decides the pinning clause of C04: every read-state / version reference taken in package pebble (loadReadState, readState.ref, Version.Ref) is, on every path to every return, released or handed to an owner (iterator, snapshot, compaction) — a missing pin lets compactions delete files under a live iterator, a missing release is the leak of C39/C47; an iterator's sequence number and pinned view are written only at construction/clone/close; the view is pinned before the visible sequence number is read. (K2) every mutator of an indexed batch that inserts into its range-deletion / range-key index (directly or through the deferred operation) has cleared the batch's cached fragments of that kind on the same path, so that iterators created or refreshed afterwards rebuild them. (W2) CloneWithContext stores nothing through its receiver: cloning never changes the iterator being cloned. Does not decide batch-view refresh semantics."
 }
 
 func acquireSites(c *Ctx, m M, pkgPath string, f func(fn *ssa.Function, call *ssa.Call)) int {
@@ -41,6 +42,30 @@ func runC04(c *Ctx) {
 	// C01.O1 (shared): view before seqnum
 	viewBeforeSeqNum(c, "C04.O1")
 	runC04K2(c)
+	// C04.W2: cloning an iterator never changes the iterator being cloned. CloneWithContext writes
+	// no field reachable through its receiver (its view of the batch, sequence number, read state …
+	// all stay as they were; RefreshBatchView refreshes the CLONE).
+	if fn := c.Fn("C04.W2", "p.(*Iterator).CloneWithContext"); fn != nil {
+		n := 0
+		for _, b := range fn.Blocks {
+			for _, in := range b.Instrs {
+				st, ok := in.(*ssa.Store)
+				if !ok {
+					continue
+				}
+				path := pathOf(st.Addr)
+				if path != "recv" && !strings.HasPrefix(path, "recv.") {
+					continue
+				}
+				n++
+				c.Ob("C04.W2", fn, "Clone does not write to the iterator being cloned", c.P.Pos(st.Pos()), false,
+					"CloneWithContext stores into "+strings.Replace(path, "recv", "the source iterator", 1)+": the open iterator's own view changes (a later SetOptions / Clone of it sees a different batch state than it does)")
+			}
+		}
+		if n == 0 {
+			c.Ob("C04.W2", fn, "Clone does not write to the iterator being cloned", c.P.Pos(fn.Pos()), true, "")
+		}
+	}
 }
 
 // runC04K2: an indexed batch caches its fragmented range deletions / range keys (b.tombstones,
